@@ -1,11 +1,236 @@
 package vc
 
 import (
+	"fmt"
+	"go/types"
+	"os"
+
 	"golang.org/x/tools/go/ssa"
 )
 
-// initValue: value of a package-level variable that is only written by the
-// package initialiser. (Filled in by globals_init.go logic.)
-func (g *Gen) initValue(fc *fnCtx, gl *ssa.Global, st *State) (Val, bool) {
-	return Val{}, false
+// initConst reports whether a package-level variable is written only by its
+// package initialiser (syntactic check over all functions of the package: no
+// Store/MapUpdate whose address is rooted at the global outside init).
+func (g *Gen) initConst(gl *ssa.Global) (stores []*ssa.Store, ok bool) {
+	if r, done := g.initConstCache[gl]; done {
+		return r, r != nil
+	}
+	g.initConstCache[gl] = nil
+	pkg := gl.Pkg
+	if pkg == nil || !g.internal[pkg.Pkg.Path()] {
+		return nil, false
+	}
+	var found []*ssa.Store
+	bad := false
+	var visit func(fn *ssa.Function)
+	seen := map[*ssa.Function]bool{}
+	visit = func(fn *ssa.Function) {
+		if seen[fn] {
+			return
+		}
+		seen[fn] = true
+		isInit := fn.Name() == "init" && fn.Parent() == nil
+		for _, b := range fn.Blocks {
+			for _, ins := range b.Instrs {
+				switch ins := ins.(type) {
+				case *ssa.Store:
+					if rootOf(ins.Addr) == ssa.Value(gl) {
+						if isInit {
+							found = append(found, ins)
+						} else {
+							bad = true
+						}
+					}
+				case *ssa.MapUpdate:
+					if rootOf(ins.Map) == ssa.Value(gl) {
+						bad = true
+					}
+				case *ssa.Call:
+					// the address of the global escaping into a call
+					for _, a := range ins.Common().Args {
+						if a == ssa.Value(gl) {
+							bad = true
+						}
+					}
+				case *ssa.MakeClosure:
+					for _, bnd := range ins.Bindings {
+						if bnd == ssa.Value(gl) {
+							bad = true
+						}
+					}
+				}
+			}
+		}
+		for _, af := range fn.AnonFuncs {
+			visit(af)
+		}
+	}
+	for _, m := range pkg.Members {
+		switch m := m.(type) {
+		case *ssa.Function:
+			visit(m)
+		case *ssa.Type:
+			for _, t := range []types.Type{m.Type(), types.NewPointer(m.Type())} {
+				ms := g.Prog.MethodSets.MethodSet(t)
+				for i := 0; i < ms.Len(); i++ {
+					if f := g.Prog.MethodValue(ms.At(i)); f != nil && f.Pkg == pkg {
+						visit(f)
+					}
+				}
+			}
+		}
+	}
+	if bad || found == nil {
+		if os.Getenv("GOVC_DEBUG") != "" {
+			fmt.Fprintf(os.Stderr, "initConst %s: bad=%v found=%v\n", gl.Name(), bad, found != nil)
+		}
+		return nil, false
+	}
+	for _, s := range found {
+		if s.Block() != found[0].Block() {
+			return nil, false
+		}
+	}
+	g.initConstCache[gl] = found
+	return found, true
+}
+
+// rootOf follows FieldAddr/IndexAddr chains to the base pointer; a load of a
+// global's value followed by an update (maps, slices) is also rooted there.
+func rootOf(v ssa.Value) ssa.Value {
+	for {
+		switch x := v.(type) {
+		case *ssa.FieldAddr:
+			v = x.X
+		case *ssa.IndexAddr:
+			v = x.X
+		case *ssa.UnOp:
+			if _, ok := x.X.(*ssa.Global); ok {
+				return x.X
+			}
+			return v
+		default:
+			return v
+		}
+	}
+}
+
+// initValue symbolically executes the slice of the package initialiser that
+// computes the global's value. Supported for array/struct/basic values built
+// in one basic block from constants and pure external calls.
+func (g *Gen) initValue(fc *fnCtx, gl *ssa.Global, st *State) (res Val, ok bool) {
+	if fc.noGlobalInit > 0 {
+		return Val{}, false
+	}
+	if v, done := fc.globalVals[gl]; done {
+		return v, v.T != ""
+	}
+	fc.globalVals[gl] = Val{}
+	stores, isConst := g.initConst(gl)
+	if !isConst {
+		fc.note("global %s is not init-constant", gl.Name())
+		return Val{}, false
+	}
+	et := gl.Type().Underlying().(*types.Pointer).Elem()
+	switch et.Underlying().(type) {
+	case *types.Array, *types.Basic, *types.Struct:
+	default:
+		return Val{}, false // maps, slices, pointers: content may be mutated through aliases
+	}
+	blk := stores[0].Block()
+	need := map[ssa.Instruction]bool{}
+	locals := map[ssa.Value]bool{}
+	var addVal func(v ssa.Value) bool
+	addVal = func(v ssa.Value) bool {
+		ins, isIns := v.(ssa.Instruction)
+		if !isIns {
+			switch v.(type) {
+			case *ssa.Const, *ssa.Global, *ssa.Function, *ssa.Builtin:
+				return true
+			}
+			return false
+		}
+		if need[ins] {
+			return true
+		}
+		if ins.Block() != blk {
+			return false
+		}
+		need[ins] = true
+		if a, ok := v.(*ssa.Alloc); ok {
+			locals[a] = true
+		}
+		if c, ok := v.(*ssa.Call); ok {
+			// only pure external calls are admitted
+			ce := fc.resolveCallee(c.Common())
+			if ce == nil {
+				return false
+			}
+			con := ce.con
+			if con == nil {
+				con = g.defaultContract(ce)
+			}
+			if con == nil || !con.Pure {
+				return false
+			}
+		}
+		for _, op := range ins.Operands(nil) {
+			if *op != nil && !addVal(*op) {
+				return false
+			}
+		}
+		return true
+	}
+	for _, s := range stores {
+		need[s] = true
+		if !addVal(s.Val) || !addVal(s.Addr) {
+			fc.note("global %s: initialiser slice not supported", gl.Name())
+			return Val{}, false
+		}
+	}
+	// stores into the needed locals
+	for changed := true; changed; {
+		changed = false
+		for _, ins := range blk.Instrs {
+			if s, ok := ins.(*ssa.Store); ok && !need[s] {
+				if r := rootOf(s.Addr); locals[r] {
+					need[s] = true
+					changed = true
+					if !addVal(s.Addr) || !addVal(s.Val) {
+						return Val{}, false
+					}
+				}
+			}
+		}
+	}
+	defer func() {
+		if e := recover(); e != nil {
+			if u, isU := e.(unsupported); isU {
+				fc.note("global %s: initialiser not executable: %s", gl.Name(), u.msg)
+				res, ok = Val{}, false
+				return
+			}
+			panic(e)
+		}
+	}()
+	ia := fc.sc.Fresh("alloc.init")
+	fc.sc.Decl(ia, nil, "Int")
+	scratch := &State{heap: map[string]string{}, base: "init", reach: "true", alloc: ia}
+	fc.noOblige++
+	fc.noGlobalInit++
+	// the variable starts out zeroed
+	fc.storeThrough(scratch, Val{T: fc.globalRef(gl), Sort: "Ref", Typ: gl.Type()}, fc.so.zero(et))
+	for _, ins := range blk.Instrs {
+		if need[ins] {
+			fc.instr(ins, scratch)
+		}
+	}
+	fc.noGlobalInit--
+	fc.noOblige--
+	fc.noGlobalInit++
+	v := fc.deref(scratch, Val{T: fc.globalRef(gl), Sort: "Ref", Typ: gl.Type()})
+	fc.noGlobalInit--
+	fc.globalVals[gl] = v
+	fc.note("global %s is init-constant: value taken from the package initialiser", gl.Name())
+	return v, true
 }
